@@ -16,7 +16,9 @@ import (
 // Block level: a block mixing executed and rejected transactions is executed by
 // the real BlockOperations.CommitAndValidateBlockTxs on chain A; the same block
 // without its FIRST rejected transaction on chain B, and without ALL rejected
-// transactions on chain C (twin chains from the same genesis). "As if it had
+// transactions on chain C (twin chains from the same genesis; their block hashes
+// differ from the first removed transaction on, so the generated programs of
+// this group do not read BLOCKHASH). "As if it had
 // not been in the block": state root, receipts of the other transactions, block
 // gas used, bloom, returned validators and the set of other rejected
 // transactions must be the same.
@@ -186,7 +188,7 @@ func blockCase(cs *core.Case) {
 		galaxias = &z
 	}
 	val0 := chainkit.ValAddrOf(0)
-	w := txgen.NewWorld(r, txgen.WorldOpts{Galaxias: gal, NEOA: 2 + r.Intn(2), NContracts: 3 + r.Intn(3), FixedCoinbase: &val0})
+	w := txgen.NewWorld(r, txgen.WorldOpts{Galaxias: gal, NEOA: 2 + r.Intn(2), NContracts: 3 + r.Intn(3), FixedCoinbase: &val0, NoBlockHash: true})
 	if corpus {
 		w.Accounts[w.EOAs[0]].Balance = new(big.Int).Exp(big.NewInt(10), big.NewInt(20), nil)
 	}
